@@ -335,10 +335,17 @@ type Contract struct {
 	Safety   bool
 	NoVerify bool
 	Panics   []Clause
+	AtCalls  []AtCall
 	Loops    map[int]*LoopSpec
 	Attrs    map[string]string
 	File     string
 	Line     int
+}
+
+// AtCall: an assertion over the caller's variables that must hold at every call to the named callee inside this function.
+type AtCall struct {
+	Callee string
+	Clause Clause
 }
 
 type SpecFn struct {
@@ -386,7 +393,7 @@ func NewSpecs() *Specs {
 
 var clauseKeywords = map[string]bool{"requires": true, "ensures": true, "modifies": true, "pure": true, "inline": true, "trusted": true,
 	"safety": true, "panics": true, "loop": true, "invariant": true, "decreases": true, "unroll": true, "attr": true, "noverify": true,
-	"vars": true, "assume": true, "let": true, "assert": true, "axiom": true}
+	"vars": true, "assume": true, "let": true, "assert": true, "axiom": true, "at-call": true}
 
 // LoadSpecFile parses a contract file. pkgPath is the package the file's unqualified keys refer to ("" for shared spec files
 // where `func` keys must be fully qualified as pkgpath:Key).
@@ -587,6 +594,24 @@ func (S *Specs) LoadSpecFile(path, pkgPath string) error {
 				}
 				curLoop.Decreases = &c
 			}
+		case "at-call":
+			// at-call <Callee> assert[label] <expr>
+			if cur == nil {
+				return fail(l.n, "at-call outside func")
+			}
+			f := strings.SplitN(rest, " ", 3)
+			if len(f) != 3 || !strings.HasPrefix(f[1], "assert") {
+				return fail(l.n, "at-call <Callee> assert[label] <expr>")
+			}
+			lbl := ""
+			if i := strings.Index(f[1], "["); i >= 0 {
+				lbl = strings.TrimSuffix(f[1][i+1:], "]")
+			}
+			e, err := ParseSpec(f[2])
+			if err != nil {
+				return fail(l.n, "%v", err)
+			}
+			cur.AtCalls = append(cur.AtCalls, AtCall{Callee: f[0], Clause: Clause{Label: lbl, Expr: e, Src: f[2]}})
 		case "modifies":
 			if cur == nil {
 				return fail(l.n, "modifies outside func")
